@@ -18,45 +18,67 @@ int sm2_fast_verify(const SM2_Z256_POINT T[16], const uint8_t dgst[32], const SM
 { g_core_calls++; g_seen = *sig; return 1; }
 void sm3_finish(SM3_CTX *ctx, uint8_t dgst[32]) { for (int i = 0; i < 32; i++) dgst[i] = nondet_u8(); }
 
+/* independent statement of "one strictly DER-encoded SEQUENCE of two INTEGERs, nothing else" (X.690 8.3, 10.1)
+ * for total lengths < 130, and of the value decoded from it */
+static int minimal_nonneg(const uint8_t *c, size_t n)
+{
+	if (n < 1) return 0;
+	if (c[0] & 0x80) return 0;                       /* negative */
+	if (n > 1 && c[0] == 0 && !(c[1] & 0x80)) return 0; /* superfluous leading zero */
+	return 1;
+}
 static void canonical(const uint8_t *buf, size_t len)
 {
-	uint8_t out[SM2_MAX_SIGNATURE_SIZE + 8]; uint8_t *p = out; size_t outlen = 0;
-	CHECK(sm2_signature_to_der(&g_seen, &p, &outlen) == 1, "re-encode");
-	CHECK(outlen == len, "accepted encoding has the canonical length (no trailing bytes, minimal lengths)");
-	for (size_t i = 0; i < LMAX; i++)
-		if (i < len) CHECK(out[i] == buf[i], "accepted encoding is byte-identical to the canonical DER");
+	CHECK(len >= 8 && len <= 72, "accepted signature is 8..72 bytes");
+	CHECK(buf[0] == 0x30 && buf[1] == len - 2, "SEQUENCE, definite short length covering the whole input");
+	size_t rl = buf[3];
+	CHECK(buf[2] == 0x02 && rl >= 1 && rl <= 33 && 4 + rl + 2 <= len, "INTEGER r header");
+	size_t so = 4 + rl, sl = buf[so + 1];
+	CHECK(buf[so] == 0x02 && sl >= 1 && sl <= 33 && so + 2 + sl == len, "INTEGER s header, no trailing bytes");
+	CHECK(minimal_nonneg(buf + 4, rl) && minimal_nonneg(buf + so + 2, sl), "r, s minimal non-negative");
+	/* decoded value = content, right-aligned */
+	for (size_t i = 0; i < 32; i++) {
+		uint8_t er = 0, es = 0;
+		size_t rskip = (rl == 33) ? 1 : 0, rn = rl - rskip;   /* 33-byte content has a leading 00 */
+		size_t sskip = (sl == 33) ? 1 : 0, sn = sl - sskip;
+		if (i >= 32 - rn) er = buf[4 + rskip + (i - (32 - rn))];
+		if (i >= 32 - sn) es = buf[so + 2 + sskip + (i - (32 - sn))];
+		CHECK(g_seen.r[i] == er && g_seen.s[i] == es, "decoded (r,s) equals the encoded integers");
+	}
 }
 
-/* every byte string of length <= LMAX offered to sm2_verify */
-void h_verify_der(void)
+/* every byte string of length <= LMAX offered to sm2_verify / sm2_verify_finish (length case-split) */
+static void run_len(size_t len, int finish)
 {
-	size_t len = nondet_size();
-	ASSUME(len >= 1 && len <= LMAX);
 	uint8_t *buf = malloc(len);           /* exact-size object: any over-read is a bounds violation */
 	ASSUME(buf != NULL);
-	for (size_t i = 0; i < LMAX; i++) if (i < len) buf[i] = nondet_u8();
-	SM2_KEY key; uint8_t dgst[32];
-	memset(&key, 0, sizeof(key)); memset(dgst, 0, 32);
-	int ret = sm2_verify(&key, dgst, buf, len);
+	for (size_t i = 0; i < len; i++) buf[i] = nondet_u8();
+	int ret;
+	if (!finish) {
+		SM2_KEY key; uint8_t dgst[32];
+		memset(&key, 0, sizeof(key)); memset(dgst, 0, 32);
+		ret = sm2_verify(&key, dgst, buf, len);
+	} else {
+		static SM2_VERIFY_CTX ctx;
+		ret = sm2_verify_finish(&ctx, buf, len);
+	}
 	if (ret == 1) {
 		CHECK(g_core_calls == 1, "core verifier consulted");
 		canonical(buf, len);
 	}
+}
+void h_verify_der(void)
+{
+	size_t len = nondet_size();
+	ASSUME(len >= 1 && len <= LMAX);
+	for (size_t L = 1; L <= LMAX; L++) if (len == L) { run_len(L, 0); break; }
 	V_REACH();
 }
 void h_verify_finish_der(void)
 {
 	size_t len = nondet_size();
 	ASSUME(len >= 1 && len <= LMAX);
-	uint8_t *buf = malloc(len);
-	ASSUME(buf != NULL);
-	for (size_t i = 0; i < LMAX; i++) if (i < len) buf[i] = nondet_u8();
-	SM2_VERIFY_CTX ctx; memset(&ctx, 0, sizeof(ctx));
-	int ret = sm2_verify_finish(&ctx, buf, len);
-	if (ret == 1) {
-		CHECK(g_core_calls == 1, "core verifier consulted");
-		canonical(buf, len);
-	}
+	for (size_t L = 1; L <= LMAX; L++) if (len == L) { run_len(L, 1); break; }
 	V_REACH();
 }
 
